@@ -60,6 +60,11 @@ func tieCases(r *vk.Run, w *Workload, rng *rand.Rand, nrec int) {
 		r.Stats["untied/embedded-extallow-prealloc"]++
 		return
 	}
+	if w.Cfg.Physical {
+		// the protocol model treats a log as one file: chunk-level durability is falsifier-side only
+		r.Stats["untied/physical-chunk-level"]++
+		return
+	}
 	evs := w.Rec.Events
 	n := endOfWorkload(evs)
 	sc := derive(evs, n, w.Cfg.IOConc, !w.Cfg.Free)
@@ -183,7 +188,19 @@ func tieCases(r *vk.Run, w *Workload, rng *rand.Rand, nrec int) {
 
 func runOne(r *vk.Run, seed int64, k int, cfg Cfg, b Budget, st *Stats, nrec int) {
 	rng := rand.New(rand.NewSource(seed*977 + int64(k)))
-	dir, err := mkTemp("c03w")
+	var dir string
+	var err error
+	if cfg.Physical {
+		if !PhysicalAvailable(os.TempDir()) {
+			r.Stats["physical-unavailable(no cachestat or memory fs): derived durability used"]++
+			cfg.Physical = false
+			dir, err = mkTemp("c03w")
+		} else {
+			dir, err = os.MkdirTemp("", "c03phys") // a disk file system: fsync and dirty pages are real
+		}
+	} else {
+		dir, err = mkTemp("c03w")
+	}
 	if err != nil {
 		r.Finding(fmt.Sprintf("harness: cannot create a temp dir: %v", err))
 		return
@@ -254,6 +271,19 @@ func Gen(r *vk.Run, n int) error {
 		cfg := genCfg(crng, k)
 		runOne(r, r.Seed, k, cfg, b, st, nrec)
 	}
+	// rotation workloads, durability observed per physical chunk file, a crash point after every ack
+	nrot := 1 + n/5
+	rb := b
+	rb.AllAcks = true
+	rb.Stage2 = b.Stage2 / 2
+	for k := 0; k < nrot; k++ {
+		crng := rand.New(rand.NewSource(r.Seed*977 + int64(500+k)))
+		cfg := genRotCfg(crng, k)
+		before := st.Images
+		runOne(r, r.Seed, 500+k, cfg, rb, st, 0)
+		r.Stats["falsifier/rotation-workloads"]++
+		r.Stats["falsifier/rotation-images"] += st.Images - before
+	}
 	r.Stats["falsifier/crash-points"] = st.Points
 	r.Stats["falsifier/images-first-crash"] = st.Images
 	r.Stats["falsifier/images-second-crash"] = st.Images2
@@ -281,6 +311,9 @@ func Replay(r *vk.Run, c map[string]any) error {
 	k, _ := c["workload"].(float64)
 	crng := rand.New(rand.NewSource(int64(seed)*977 + int64(k)))
 	cfg := genCfg(crng, int(k))
+	if int(k) >= 500 {
+		cfg = genRotCfg(crng, int(k)-500)
+	}
 	runOne(r, int64(seed), int(k), cfg, budgetFor("quick"), NewStats(), 40)
 	return nil
 }
